@@ -92,6 +92,21 @@ def rules(rep, m):
     else:
         r1.ok()
 
+    # honoured on every path: the only reason not to reshuffle is that the *named* entry already has that priority
+    q_, h_, p_ = ("&%s->queue" % rp.params[0]["name"]), rp.params[1]["name"], rp.params[2]["name"]
+    own = re.compile(r"^!?\((?:cmi_hashheap_ikey\(%s, %s\) (?:==|!=) %s|%s (?:==|!=) cmi_hashheap_ikey\(%s, %s\))\)$"
+                     % (re.escape(q_), re.escape(h_), re.escape(p_), re.escape(p_), re.escape(q_), re.escape(h_)))
+    conds = inv.dominating_conditions(rcx, rp, rc[0])
+    bad = [cd for cd in conds if not own.match(cd) and "cmi_hashheap_is_enqueued(%s, %s)" % (q_, h_) not in cd]
+    r1.instance("reprioritize is reached under %s" % (conds or "no condition"))
+    if bad:
+        rep.finding(r1, rp.name, "reprioritize:skipped", "the new priority is applied only under %s: a condition on anything but "
+                    "the named entry's own current priority leaves the entry at its old priority, and it is then delivered "
+                    "out of order" % bad, where=m.rel(loc(rc[0])))
+        r1.fail()
+    else:
+        r1.ok()
+
     # trace-based rules ----------------------------------------------------
     r2 = rep.rule("R-C12-2", "every insertion (length++ / enqueue on the queue's heap) is dominated, in the same "
                   "atomic region, by the test length < capacity", floor=2)
